@@ -14,23 +14,34 @@ claim("C01", "other",
       "contract-based deductive verification (AST->SMT VCs, z3+cvc5) + bounded native contract evaluation", "DESIGN.md 5/C01")
 
 claim("C02", "other",
-      "Proof: each of the six windowed kernels (Konno-Ohmachi, Parzen, linear/log rectangular, linear/log triangular) returns, for every grid, "
-      "spectrum (any number of rows), centre-frequency vector and bandwidth > 0, out[r,c] = SP(r,c)/SW(c) under its published support and weight "
-      "(ghost sums with one-step unfolding; inner/outer loop invariants; zero for fc < 1e-6 or empty window; every index in bounds; inputs not "
-      "written). Bounded: Savitzky-Golay against its quadratic/cubic spec and 'compiled kernel == interpreted source' (numba is outside any "
-      "contract on Python source) by differential runs.",
-      TB + "sin/log10/10**x uninterpreted, only log10(y)=0 <=> y=1 and pi bounds assumed for the safety of sin(x)/x.",
+      "Proof (every obligation discharged by z3/cvc5 on the source re-read from /repo): each of the six windowed kernels (Konno-Ohmachi, Parzen, "
+      "linear/log rectangular, linear/log triangular) returns, for every grid, spectrum (any number of rows), centre-frequency vector and "
+      "bandwidth > 0, out[r,c] = SP(r,c)/SW(c) under its published support and weight (ghost sums with one-step unfolding; inner/outer loop "
+      "invariants; zero for fc < 1e-6 or an empty window; every index in bounds; inputs not written); the compiled Savitzky-Golay core returns "
+      "the symmetric weighted sum over 2h+1 samples divided by the normaliser for admitted centre indices and 0 at the edges, with every index "
+      "proved in bounds; the Savitzky-Golay driver raises ValueError iff the window length is even or the grid is non-uniform, builds "
+      "coef(i) = (3m^2-7-20i^2)/4, norm = m(m^2-4)/3 and the rounded grid index of each centre frequency, and hands exactly these to the core. "
+      "Lemmas (base/step pairs over the ghost sums, per kernel): non-negative weights on the support, a constant spectrum is reproduced, the "
+      "output lies between the smallest and largest contributing sample, linearity, row independence; Savitzky-Golay: closed forms of sum i^2 "
+      "and sum i^4, coefficients sum to the normaliser, second moment vanishes (cubic reproduction). Bounded (labelled): compiled (numba) == "
+      "interpreted source by differential runs - numba's translation is outside any contract on Python source.",
+      TB + "sin/log10/10**x uninterpreted (log10(y)=0 <=> y=1, log10(10^x)=x, monotone log10 as named instances); A-ROUND (|round(x)-x| <= 1/2); "
+      "the induction schema itself is applied by hand to the proved base/step lemmas (A-INDUCTION).",
       "contract-based deductive verification with loop invariants over ghost sums (z3+cvc5) + bounded differential check of compiled kernels", "DESIGN.md 5/C02")
 
 claim("C03", "other",
-      "Proof: check_nyquist_frequency raises ValueError iff some centre frequency exceeds 1/(2 dt), for every vector and step. Bounded (labelled): "
-      "one curve per retained recording, in input order, each equal (rtol 1e-10) to the curve of that recording processed alone; the three "
-      "time-step policies retain exactly the smallest / a most frequent step in original order; Nyquist refusal - evaluated natively for every "
-      "arrangement of up to 3 time steps over 1-4 recordings (non-involutive groupings first), 4 methods x 3 policies, and 11 arrangements x 6 "
-      "top frequencies x 5 methods x 3 policies. The dict-with-float-keys bookkeeping of prepare_records_with_inconsistent_dt and the row "
-      "reordering of the traditional_* drivers are not yet inside the PyVC subset (DESIGN.md 5/C03 describes the intended invariant).",
-      TB + "Bounded clause bound as stated; A-NP-MAX for max(fcs).",
-      "contract-based deductive verification (check_nyquist_frequency) + bounded exhaustive-arrangement native contract evaluation", "DESIGN.md 5/C03")
+      "Proof: prepare_records_with_inconsistent_dt, for all three policies and every list of recordings with any arrangement of time steps - "
+      "the dictionary built holds exactly the distinct steps, each with its count (ghost counting function CNT(d,i), dictionary with float "
+      "keys modelled as membership / value / insertion-ordered key list, try/except KeyError routed), 'resampling' returns the list itself, "
+      "'keeping smallest' returns exactly the recordings whose step is the minimum in original order as the same objects "
+      "(result[CNT(d,i)] is records[i]), 'keeping majority' the same for a step with maximal count, the early break is justified by the "
+      "monotonicity of CNT, and the returned dictionary is {step: count}; check_nyquist_frequency raises ValueError iff some centre frequency "
+      "exceeds 1/(2 dt). Bounded (labelled): one curve per retained recording, in input order, each equal (rtol 1e-10) to the curve of that "
+      "recording processed alone, Nyquist refusal - evaluated natively for every arrangement of up to 3 time steps over 1-4 recordings "
+      "(non-involutive groupings first), 4 methods x 3 policies. The row reordering of the traditional_* drivers (scatter through "
+      "hvsr_indices_to_order) is not yet under contract.",
+      TB + "A-DICT (insertion-ordered dict), A-NP-MAX; monotonicity / range of CNT are used as axioms justified by proved step lemmas (A-INDUCTION).",
+      "contract-based deductive verification (symbolic dictionary, ghost counting function, loop invariants; z3+cvc5) + bounded exhaustive-arrangement native evaluation", "DESIGN.md 5/C03")
 
 claim("C08", "other",
       "Proof: _search_range_to_index_range returns the half-open index range [first index nearest f_low, first index nearest f_high + 1) for all four "
